@@ -113,6 +113,11 @@ fn fxhash(s: &str) -> u64 {
 /// emit a framework case: protocol text with the determinism line inserted before `end`
 fn emit_fw<W: Write>(w: &mut W, c: &fw::FwCase, p: &mut util::Prng) {
     let text = fw::run_case(c);
+    if text.contains("o res panic hang") {
+        // do not run the hanging history again for the determinism / non-interference trailers
+        let _ = w.write_all(text.as_bytes());
+        return;
+    }
     let det = fw::det_line(c, p);
     let body = text.strip_suffix("end\n").unwrap_or(&text);
     let _ = w.write_all(body.as_bytes());
